@@ -319,7 +319,7 @@ def gen_doc(rng, spec, t, depth=3):
             pairs.append((S('extra1'), gen_any(rng, 1)))
             if rng.random() < 0.3:
                 pairs.append((S('extra2'), gen_any(rng, 1)))
-        if c.get('extra') and rng.random() < 0.12:
+        if c.get('extra') and rng.random() < 0.25:
             # a key spelt like the catch-all parameter itself
             inner = ('m', [(S('x'), S('2'))], '!' + rng.choice([x['name'] for x in spec]))
             pairs.append((S('_yatiml_extra'), rng.choice([S('null'), inner, ('m', [(S('deep'), inner)], None)])))
